@@ -95,13 +95,13 @@ P("C07", [f"{RED}:merge_breakpoints", f"{RED}:CoolerMerger.__init__", f"{RED}:Co
   "Proof core: merge_breakpoints (shared with C06); write_pixels (the append loop the merged stream goes through) is verified with ghost dataset contents for EVERY number of chunks and chunk lengths: each pixel column is the concatenation of the chunks in order, its length is the returned nnz, the returned total is the sum of the count column in the integer AND the float configuration (no truncation of float sums). The merge loop itself (CoolerMerger.__iter__, k = 1,2,3 inputs, merge_breakpoints applied by contract) is verified with the invariant starts[i] == index_i[P[t]]: each epoch reads from every input exactly the slice between two consecutive boundaries - cut only at row offsets, so a bin1 row is never split - every input with records in an epoch is read in it exactly once, inputs contribute in order, the epoch is the sorted groupby(bin1_id, bin2_id).aggregate(agg) of their concatenation, and at the end every input is read to its nnz: every input record is read exactly once for every buffer size. CoolerMerger.__init__ accepts the inputs iff they share the bin table (fixed size: same size and same chromosome names AND lengths as the first input; variable: same table row for row), and merge_coolers (k = 2,3) puts all inputs in order into one merger with the caller's buffer/columns/agg, creates the output from the first input's bins and assembly with that merger as stream, is symmetric iff all inputs are (mixed refused), requires every requested column in every input and gives it the caller's dtype or numpy.result_type over ALL inputs. Bounded stand-in for the rest (all small input families x mergebuf x orders x nestings x dtype limits).",
   level="other", unverified=["pandas concat / groupby-sum, table equality, numpy.result_type (assumed by the stubs)", "integer overflow inside pandas group-by sum (known finding)"])
 
-P("C08", [f"{RED}:_greedy_prune_partition", f"{RED}:CoolerCoarsener.__init__", f"{RED}:CoolerCoarsener._aggregate", f"{UT}:get_binsize"], "bounded/C08.py",
+P("C08", [f"{RED}:_greedy_prune_partition", f"{RED}:CoolerCoarsener.__init__", f"{RED}:CoolerCoarsener._aggregate", f"{RED}:coarsen_cooler", f"{UT}:get_binsize"], "bounded/C08.py",
   "Proof core: CoolerCoarsener.__init__ builds, for every chromosome layout, factor and chunk size, a pixel partition whose every edge is the offset of a coarse-row start (bin1_offset[chrom_offset[c] + g*factor]) or nnz (loop invariant with ghost witnesses; Cooler/GenomeSegmentation by assumed models), and _greedy_prune_partition keeps only values of that edge list, ordered, from 0 to nnz - so no coarse row is ever split across spans; get_binsize (which decides the re-binning path) is truthful (C20). Bounded stand-in for the rest (all small coolers x factors x chunk sizes x workers against a block-aggregate model). CoolerCoarsener._aggregate (where each fine pixel goes) is verified for every chunk, chromosome layout, bin size and factor k >= 2: for both ends of every pixel the new bin id is new_chrom_offset[c] + (fine_id - old_chrom_offset[c]) div k - the coarse bin containing the fine bin - on the fixed-width path (floor(start/(k*binsize)); nonlinear quotient/remainder lemma as hint) and on the variable-width path (searchsorted over the absolute starts of the coarse bins; hint chain), the rows read are exactly the span, and the chunk is grouped by the new key, sorted, and aggregated with the coarsener's functions.",
-  level="other", unverified=["CoolerCoarsener.__iter__ (batches over the worker map)", "pandas groupby/aggregate and the joined pixel selector (assumed by the _aggregate stubs)", "coarsen_bins / coarsen_cooler (bin table construction, create)"])
+  level="other", unverified=["CoolerCoarsener.__iter__ (batches over the worker map)", "pandas groupby/aggregate and the joined pixel selector (assumed by the _aggregate stubs)", "coarsen_bins (bin table construction; pandas groupby/apply)"])
 
-P("C09", [f"{RED}:get_multiplier_sequence", f"{RED}:zoomify_cooler"], "bounded/C09.py",
+P("C09", [f"{RED}:get_multiplier_sequence", f"{RED}:zoomify_cooler", f"{RED}:coarsen_cooler"], "bounded/C09.py",
   "Proof core: the zoom plan (three loops with invariants and a variant): every non-base resolution is derived from the LARGEST smaller member dividing it with multiplier >= 2, a supplied base is never re-derived, and a non-derivable member is refused exactly. Bounded stand-in for the rest (plan level: all subsets of resolutions x bases; file level against direct coarsening). zoomify_cooler (coordinator, four concrete plans - chain, fan-out with an extra value column, two interleaved bases, base only - with symbolic file names, chunk size and options; the plan comes from get_multiplier_sequence's contract): the output is truncated exactly once and re-opened r+ afterwards, inputs are only read; every base level is a copy of its own input's chroms, bins, requested pixel columns, indexes and attributes under /resolutions/<binsize>; every planned non-base level is produced by exactly one coarsen_cooler call, in plan order, from the predecessor and with the factor the plan names, inside the output in r+ mode; base levels are never re-derived; the file is finally marked HDF5::MCOOL.",
-  level="other", unverified=["zoomify_cooler for plans other than the four verified shapes (its loops do not depend on the plan length)", "coarsen_cooler (bin table construction, create)"])
+  level="other", unverified=["zoomify_cooler for plans other than the four verified shapes (its loops do not depend on the plan length)", "coarsen_bins (bin table construction)"])
 
 P("C10", [f"{BAL}:_init", f"{BAL}:_binarize", f"{BAL}:_zero_diags", f"{BAL}:_zero_trans", f"{BAL}:_zero_cis", f"{BAL}:_timesouterproduct", f"{BAL}:balance_cooler"], "bounded/C10.py", "Proof core: the per-pixel filters of the balancing pipeline are verified elementwise for every chunk (which pixels are zeroed: |bin1-bin2| < n_diags strictly, trans / cis by the chromosome of the two bins; binarisation; weighting by vec[bin1]*vec[bin2]) together with their frame (no filter writes the shared chunk; _init returns a fresh copy). balance_cooler itself is verified as a coordinator (sweeps and the split engine replaced by recording stubs; all nnz, bin counts, thresholds, chunk sizes, modes): the binarised marginal pass runs iff min_nnz > 0 and every pass uses exactly the requested filters; the initial bias handed to the sweeps is 0 exactly for the bins with nnz-marginal < min_nnz or (min_count set and) count-marginal < min_count and 1 otherwise; exactly one balancer runs, chosen by mode, with the caller's arguments; converged is var < tol; store replaces only bins/<name> and attaches the returned stats. The MAD-max block, x0 and blacklist (excluded by the contract's precondition), the sweeps and the flatness bound are covered by the bounded tier only.", level="other",
   unverified=["_marginalize (bincount)", "_balance_genomewide/_cisonly/_transonly loops (floating-point iteration)", "balance_cooler: MAD-max block, x0, blacklist"])
